@@ -212,6 +212,13 @@ def driver_path():
 
 
 def run_driver(args, timeout=600, input_text=None):
-    p = subprocess.run([driver_path()] + list(args), stdout=subprocess.PIPE, stderr=subprocess.PIPE,
-                       timeout=timeout, input=input_text, text=True)
-    return p.returncode, p.stdout, p.stderr
+    # another check may be relinking the driver at this moment (regenerated facts changed): wait for it
+    for attempt in range(120):
+        try:
+            p = subprocess.run([driver_path()] + list(args), stdout=subprocess.PIPE, stderr=subprocess.PIPE,
+                               timeout=timeout, input=input_text, text=True)
+            return p.returncode, p.stdout, p.stderr
+        except (FileNotFoundError, PermissionError, OSError) as e:
+            if isinstance(e, subprocess.TimeoutExpired) or attempt == 119:
+                raise
+            time.sleep(1)
